@@ -60,13 +60,16 @@ class D(operator.Operator):
     def _apply(self, sm):
         # compute b-matrix for L and T states
         xp = common.get_array_module()
+        # align tau's axes with the first batch axes (state and b-matrix axes come last)
+        tau = xp.asarray(self.tau)
+        tau = tau.reshape(tau.shape + (1,) * (max(sm.ndim - tau.ndim, 0) + 3))
         if self.k is None:
-            bmatL = compute_bmatrix(self.tau, sm.k)
+            bmatL = compute_bmatrix(tau, sm.k)
             bmatT = bmatL
         else:
             shift = xp.asarray(self.k * sm.kvalue)
-            bmatL = compute_bmatrix(self.tau, sm.k)
-            bmatT = compute_bmatrix(self.tau, sm.k - shift, sm.k)
+            bmatL = compute_bmatrix(tau, sm.k)
+            bmatT = compute_bmatrix(tau, sm.k - shift, sm.k)
 
         # get diffusion operator
         DL, DT = diffusion_operator(bmatL, bmatT, self.D)
